@@ -63,19 +63,33 @@ class Roles:
         # conversion Evaluated -> Value
         conv = [b for b in facts.fns() if b.kind == "fn" and items.get(b.key, {}).get("output") == "serde_json::Value"
                 and len(items[b.key].get("inputs", [])) == 1 and self.evaluated_adt and items[b.key]["inputs"][0].startswith(self.evaluated_adt)]
-        if len(conv) != 1:
-            raise Inconclusive("conversion Evaluated → Value not identified")
-        self.conv = conv[0]
-        # which Evaluated variant owns its value (converted by move, not clone)
-        self.owned_variant = None
-        adt = self.conv.locals[1]["adt"]
+        # the faithful one: for every variant the payload itself or a clone of it (no look at the JSON kind);
+        # any other fn(Evaluated) -> Value is a lossy conversion that clauses about "the evaluated value" must not see through
         from .core import strip_refs
-        for v in facts.variants(adt):
-            blocks, dec = self.conv.specialize(lambda e, a, _v=v: _v if (a == adt and e == ("arg", 1)) else None)
-            with self.conv.restricted(blocks):
-                r = strip_refs(self.conv.trace(0))
-            if r[0] == "field" and r[1][0] == "downcast":
-                self.owned_variant = v
+        faithful = []
+        self.lossy_conversions = []
+        for cb in conv:
+            adt = cb.locals[1]["adt"]
+            owned = None
+            good = True
+            for v in facts.variants(adt):
+                blocks, dec = cb.specialize(lambda e, a, _v=v: _v if (a == adt and e == ("arg", 1)) else None)
+                with cb.restricted(blocks):
+                    r = strip_refs(cb.trace(0))
+                pay = ("field", ("downcast", ("arg", 1), v), 0)
+                if r == pay:
+                    owned = v
+                elif r[0] == "call" and r[1] and r[1]["path"].endswith("as std::clone::Clone>::clone") and strip_refs(r[2][0]) == pay:
+                    pass
+                else:
+                    good = False
+            if good:
+                faithful.append((cb, owned))
+            else:
+                self.lossy_conversions.append(cb.key)
+        if len(faithful) != 1:
+            raise Inconclusive("conversion Evaluated → Value not identified (%d faithful candidates of %d)" % (len(faithful), len(conv)))
+        self.conv, self.owned_variant = faithful[0]
         # sink functions: parameter positions that must only ever receive rule text
         self.sinks = {self.entry.key: [1], self.value_parser.key: [1], self.disp.body.key: [self.disp.value_arg]}
         for k in self.parsers:
